@@ -190,5 +190,49 @@ func c05run(r *kernel.Run) {
 			return
 		}
 	}
+	// 5. the same alterations offered to a recipient that ALREADY registered the genuine announcement of that sender:
+	// they are rejected all the same (an already known sender is no reason to wave an altered announcement through),
+	// and the genuine messages still open
+	{
+		q := fresh(R)
+		if err := q.st.RegisterChainKey(ctx, g, smd.Device(), ann); err != nil {
+			r.Infra("register: %v", err)
+			return
+		}
+		var alts [][]byte
+		for bit := 0; bit < len(ann)*8; bit += 7 {
+			a2 := append([]byte(nil), ann...)
+			a2[bit/8] ^= 1 << (bit % 8)
+			alts = append(alts, a2)
+		}
+		alts = append(alts, nil, []byte{}, ann[:len(ann)/2], append(append([]byte{}, ann...), 0))
+		for _, a2 := range alts {
+			r.Fault("altered_announcement_to_registered_recipient")
+			r.Step()
+			if err := q.st.RegisterChainKey(ctx, g, smd.Device(), a2); err == nil {
+				r.Violate("integrity", "altered-announcement-accepted", "a recipient that already knows the sender accepts (no error) an altered announcement of %d bytes", len(a2))
+				return
+			}
+		}
+		// the wrong group / wrong claimed sender, for senders the recipient already knows in those groups
+		if err := q.st.RegisterChainKey(ctx, g2, mustDev(S, g2), ann); err == nil {
+			gpk2, _ := g2.GetPubKey()
+			if !fresh(R).st.IsChainKeyKnownForDevice(ctx, gpk2, mustDev(S, g2)) && q.st.IsChainKeyKnownForDevice(ctx, gpk2, mustDev(S, g2)) {
+				r.Violate("secrecy", "wrong-party-registered/registered-recipient-other-group", "an announcement sealed for another group was registered")
+				return
+			}
+		}
+		mod := &c02model{w: uint64(w), opened: map[string]bool{}}
+		mod.register(uint64(annAt))
+		for _, m := range msgs {
+			if want := mod.open(m.counter, vcid(m.env).String()); want {
+				if _, pl, err := vopen(ctx, q, g, m.env, vcid(m.env)); err != nil || !bytes.Equal(pl, m.tag) {
+					r.Violate("exact", "subsequent-message-not-openable", "after rejected altered announcements message counter %d no longer opens: %v", m.counter, err)
+					return
+				}
+			}
+		}
+		r.Probe("alterations_to_registered_recipient")
+	}
 	r.Nontrivial()
 }
